@@ -803,17 +803,18 @@ class Program:
             raise AnchorError("const anchor %r matched %d" % (suffix, len(m)))
         return m[0]
 
-    def inline_summary(self, path, level):
+    def inline_summary(self, path, level, closure=False):
         """(param names, return expression) of a small straight-line local function, else None.
-        Lets guards and provenance see through extracted helpers and getters."""
-        key = (path, level)
+        Lets guards and provenance see through extracted helpers and getters. With closure=True: of a closure body
+        (its environment parameter is dropped; captures stay capture expressions)."""
+        key = (path, level, closure)
         cache = self.__dict__.setdefault("_inline_cache", {})
         if key in cache:
             return cache[key]
         cache[key] = None  # recursion guard
         b = self.bodies.get(path)
         res = None
-        if b is not None and not b.coroutine and b.kind in ("Fn", "AssocFn") and b.argc <= 6:
+        if b is not None and not b.coroutine and (b.kind in ("Fn", "AssocFn") or (closure and b.kind == "Closure")) and b.argc <= 6:
             live = [x for x in b.blocks if x.idx in b.live_blocks() and not x.cleanup]
             if len(live) <= 14 and all(x.term.kind in ("goto", "call", "return", "assert", "drop") for x in live):
                 defs0 = [d for d in b.defs.get(0, []) if d[0] in b.live_blocks()]
@@ -821,7 +822,7 @@ class Program:
                     try:
                         s = Sym(b, level)
                         ret = s.local_expr(0)
-                        params = [b.local_name(i) or "_%d" % i for i in range(1, b.argc + 1)]
+                        params = [b.local_name(i) or "_%d" % i for i in range(2 if closure else 1, b.argc + 1)]
                         if ret[0] not in ("var", "other") and len(set(params)) == len(params) and _expr_size(ret) <= 60:
                             res = (params, ret)
                     except Exception:
@@ -1186,6 +1187,14 @@ class Sym:
                     e = ("tryv" if pr[1:] == "Continue" else "tryerr", e[2][0])
                 elif e[0] == "agg" and e[2] == pr[1:]:
                     pass
+                elif e[0] == "call" and len(e[2]) == 2 and pr[1:] in ("Some", "Ok") and _MAP_LIKE.search(e[1] or "") and (e[1] or "").endswith("::map") and e[2][1][0] == "closure":
+                    # (x.map(|v| f(v)) as Some).0  ==  f((x as Some).0)
+                    summ = self.body.prog.inline_summary(e[2][1][1], self.inline_level + 1, closure=True)
+                    if summ is not None and len(summ[0]) == 1:
+                        inner = ("field", ("variant", e[2][0], pr[1:]), "0") if not (e[2][0][0] == "agg" and e[2][0][2] == pr[1:]) else dict(e[2][0][3]).get("0")
+                        e = ("agg", "std::option::Option" if pr[1:] == "Some" else "std::result::Result", pr[1:], (("0", subst(summ[1], {summ[0][0]: inner})),))
+                    else:
+                        e = ("variant", e, pr[1:])
                 else:
                     e = ("variant", e, pr[1:])
             elif pr.startswith("["):
@@ -1614,7 +1623,33 @@ def _switch_guards(body, sym, blk):
     return out
 
 
+_MAP_LIKE = re.compile(r"(option::Option|result::Result)<.*>::(map|copied|cloned|as_ref|as_mut|as_deref|inspect)$|(option::Option|result::Result)::(map|copied|cloned|as_ref|as_mut|as_deref|inspect)$")
+_MAP_ERR = re.compile(r"result::Result(<.*>)?::map_err$")
+_OK_OR = re.compile(r"option::Option(<.*>)?::(ok_or|ok_or_else)$")
+_RES_OK = re.compile(r"result::Result(<.*>)?::ok$")
+
+
+def _peel_variant(inner, name):
+    """`x.map(f)` is Some/Ok exactly when x is; `x.map_err(f)` likewise; `x.ok_or(e)` is Ok/Err when x is Some/None; `r.ok()` is
+    Some/None when r is Ok/Err. A variant test on the adapted value is the same test on the original."""
+    for _ in range(4):
+        if inner[0] != "call" or not inner[2]:
+            break
+        p_ = inner[1] or ""
+        if _MAP_LIKE.search(p_) or _MAP_ERR.search(p_):
+            inner = inner[2][0]
+        elif _OK_OR.search(p_) and name in ("Ok", "Err"):
+            inner, name = inner[2][0], ("Some" if name == "Ok" else "None")
+        elif _RES_OK.search(p_) and name in ("Some", "None"):
+            inner, name = inner[2][0], ("Ok" if name == "Some" else "Err")
+        else:
+            break
+    return inner, name
+
+
 def _variant_guard(inner, name, enum, **kw):
+    if enum and (enum.endswith("option::Option") or enum.endswith("result::Result")):
+        inner, name = _peel_variant(inner, name)
     # normalise `?`: Try::branch(x) is Continue  ==> x is Ok|Some (reported as 'Continue' on x)
     if inner[0] == "call" and inner[1] and inner[1].endswith("Try>::branch") and len(inner[2]) == 1:
         return Guard("is", a=inner[2][0], name="Continue" if name == "Continue" else "Break", enum="try", **kw)
